@@ -274,6 +274,28 @@ DiagGames ==
             o1 \in {P1, P2}, o2 \in {P1, P2}, o3 \in {P1, P2}, p4 \in {half, most}, p6 \in {half, most},
             r \in { <<0, 0, 1, 6, 1>>, <<1, 0, 6, 1, 3>>, <<0, 2, 1, 3, 7>>, <<2, 1, 4, 2, 1>>, <<0, 0, 5, 1, 9>> } }
 
+(* SameRow: a maximiser and a minimiser with literally the same transition  *)
+(* list (same action names, same successors), whose successors differ in     *)
+(* value; and a Player 2 state whose reach-tied worst actions are separated   *)
+(* by a better one, the cheapest of them last.                               *)
+(*   1 -> 2, 3 ; 2 and 3 : l -> 4, m -> 6, r -> 5 ; 4 (9/10), 5 (1/2), 6 (1/2) *)
+SameRowGames ==
+    LET row3 == <<Tr("l", 0, 4), Tr("m", 0, 6), Tr("r", 0, 5)>>
+        row2 == <<Tr("l", 0, 4), Tr("r", 0, 5)>>
+        row3b == <<Tr("m", 0, 6), Tr("l", 0, 4), Tr("r", 0, 5)>>     \* the tied worst actions apart
+        mk(o1, oa, ob, row, r) ==
+          [n |-> 8,
+           owner  |-> <<o1, oa, ob, PR, PR, PR, PR, PR>>,
+           reward |-> <<0, 1, 1, r[1], r[2], r[3], 0, 0>>,
+           tr |-> << IF o1 = PR THEN <<Tr("", 1, 2), Tr("", 1, 3)>> ELSE <<Tr("x", 0, 2), Tr("y", 0, 3)>>,
+                     row, row,
+                     <<Tr("", 9, 8), Tr("", 1, 7)>>, <<Tr("", 1, 8), Tr("", 1, 7)>>, <<Tr("", 1, 8), Tr("", 1, 7)>>,
+                     <<Tr("", 1, 7)>>, <<Tr("", 1, 8)>> >>,
+           final |-> <<8>>]
+    IN  { mk(o1, oa, ob, row, r) :
+            o1 \in {P1, P2, PR}, oa \in {P1, P2}, ob \in {P1, P2}, row \in {row2, row3, row3b},
+            r \in { <<9, 2, 6>>, <<1, 5, 2>>, <<0, 0, 3>>, <<4, 6, 1>> } }
+
 (* BigRew: rewards in the millions whose relative difference is tiny but    *)
 (* whose absolute difference is far above the tolerance.                    *)
 BigRewGames ==
